@@ -431,6 +431,11 @@ class Run:
         elif a == 'break_watches':
             cl.break_watches(rkey=KEX, kind=act.get('kind', 'eof'))
         elif a == 'compact':
+            if act.get('edit') is not None:
+                # a change that no stream conveys: the streams break, the object changes, and the history is compacted before
+                # the operator has reconnected (all at one instant): it can see the change only in its next listing
+                cl.break_watches(rkey=KEX)
+                eff = cl.edit(*self.key(act['edit']['obj']), lambda b: b.setdefault('spec', {}).update(f=act['edit']['v'])) is not None
             cl.rv += 1                 # (something else in the cluster moved on; the history of this kind is compacted up to here)
             cl.compact(KEX)
             cl.break_watches(rkey=KEX)
